@@ -29,10 +29,25 @@ type Res struct {
 
 var marshaler = requestreply.BackendPubsubJSONMarshaler[Res]{}
 
+const emptyErrorText = "<an error with empty text>"
+
+// wantErrOf: what reply i of the scripted sequence carries: none, "err<i>", or an error with empty text.
+func wantErrOf(i int) string {
+	switch i % 3 {
+	case 1:
+		return emptyErrorText
+	case 2:
+		return fmt.Sprintf("err%d", i)
+	}
+	return ""
+}
+
 // notification builds a reply notification for operation op.
 func notification(op, val, errText string) *message.Message {
 	p := requestreply.BackendOnCommandProcessedParams[Res]{HandlerResult: Res{Val: val}}
-	if errText != "" {
+	if errText == emptyErrorText {
+		p.HandleErr = errors.New("") // a failure whose text is empty is still a failure
+	} else if errText != "" {
 		p.HandleErr = errors.New(errText)
 	}
 	m, err := marshaler.MarshalReply(p)
@@ -68,11 +83,7 @@ func listenScenario(sp listenSpec) *explore.Scenario {
 		var script []*message.Message
 		script = append(script, notification("other", "x", ""))
 		for i := 0; i < sp.Replies; i++ {
-			e := ""
-			if i%2 == 1 {
-				e = fmt.Sprintf("err%d", i)
-			}
-			script = append(script, notification("op1", fmt.Sprintf("v%d", i), e))
+			script = append(script, notification("op1", fmt.Sprintf("v%d", i), wantErrOf(i)))
 			script = append(script, notification("other", "y", "error of another request"))
 			// another requester on the shared topic may use another result type: its replies do not even
 			// decode into ours (a number where we have a string; a truncated document)
@@ -114,13 +125,13 @@ func listenScenario(sp listenSpec) *explore.Scenario {
 			}
 			got = append(got, r)
 			i := len(got) - 1
-			wantErr := ""
-			if i%2 == 1 {
-				wantErr = fmt.Sprintf("err%d", i)
-			}
+			wantErr := wantErrOf(i)
 			gotErr := ""
 			if r.Error != nil {
 				gotErr = r.Error.Error()
+				if gotErr == "" {
+					gotErr = emptyErrorText
+				}
 			}
 			if r.HandlerResult.Val != fmt.Sprintf("v%d", i) || gotErr != wantErr {
 				vs.Fail("own-replies-only", "reply %d for op1 carries result %q error %q, expected v%d / %q", i, r.HandlerResult.Val, gotErr, i, wantErr)
